@@ -1,7 +1,7 @@
 """Program model over the driver's facts: functions, CFGs (unwind edges removed),
 dominators, call graph with closure attribution and class-hierarchy resolution of
 trait calls on generic parameters, reachability from root sets."""
-import re
+import json, os, re
 from collections import defaultdict, deque
 
 
@@ -296,8 +296,83 @@ def _dominators(nodes, entry, succs, preds):
     return idom
 
 
+def _load_pinned():
+    try:
+        with open(os.path.join(os.path.dirname(os.path.dirname(os.path.abspath(__file__))), "tables", "pinned_fns.json")) as fh:
+            d = json.load(fh)
+        return set(d.get("fns", [])), d.get("sigs", {})
+    except Exception:
+        return set(), {}
+
+
+def _sig(raw):
+    b = raw["body"]
+    return [b["locals"][i]["ty"] for i in range(1, b["arg_count"] + 1)] + [b["locals"][0]["ty"]]
+
+
+def normalise_renames(facts):
+    """A function of the pinned tree that was only renamed keeps its pinned name for the rules: when a pinned name is gone, and exactly one
+    function that is new to the tree sits in the same impl / module with the same signature (and it is the only pinned name it matches),
+    every path that mentions the new name is rewritten to the pinned one.  Returns {pinned short path: new short path}.
+    The rules still analyse the function's current body - only the label is the old one."""
+    pinned, sigs = _load_pinned()
+    if not pinned:
+        return {}
+    now = {}
+    for d in facts:
+        for raw in d["fns"]:
+            if raw["kind"] != "Closure":
+                now.setdefault(short(raw["path"]), []).append(raw)
+    missing = [m for m in sigs if m not in now]
+    fresh = [(sp, rs[0]) for sp, rs in now.items() if sp not in pinned and len(rs) == 1]
+    if not missing or not fresh:
+        return {}
+    cand = {}
+    for m in missing:
+        par = m.rsplit("::", 1)[0]
+        cs = [sp for sp, raw in fresh if sp.rsplit("::", 1)[0] == par and _sig(raw) == sigs[m]]
+        if len(cs) == 1:
+            cand[m] = cs[0]
+    ren = {m: n for m, n in cand.items() if list(cand.values()).count(n) == 1}
+    if not ren:
+        return {}
+    by_new = {n: m for m, n in ren.items()}
+
+    def fix(path):
+        sp = short(path)
+        for n, m in by_new.items():
+            if sp == n or sp.startswith(n + "::"):
+                nn, mn = n.rsplit("::", 1)[1], m.rsplit("::", 1)[1]
+                # the last occurrence of `::<new name>` that is followed by the end, generics or a nested item
+                idx = -1
+                for mm in re.finditer(r"::%s(?=$|::)" % re.escape(nn), path):
+                    idx = mm.start()
+                    if short(path[:mm.end()]) == n:
+                        break
+                if idx >= 0:
+                    return path[:idx] + "::" + mn + path[idx + 2 + len(nn):]
+        return path
+
+    def walk(x):
+        if isinstance(x, dict):
+            for k, v in x.items():
+                if k in ("path", "res_path") and isinstance(v, str):
+                    x[k] = fix(v)
+                elif isinstance(v, (dict, list)):
+                    walk(v)
+        elif isinstance(x, list):
+            for v in x:
+                if isinstance(v, (dict, list)):
+                    walk(v)
+
+    for d in facts:
+        walk(d["fns"])
+    return ren
+
+
 class Prog:
     def __init__(self, facts):
+        self.renames = normalise_renames(facts)
         self.fns = {}
         self.adts = {}
         self.impls = []
